@@ -230,6 +230,12 @@ class CounterToken(Token, FileSystemEventHandler):
         self.watcher = ipcom().fswatch(self, self.path, recursive=True)
         logger.info("Watching %s", self.watchedpath)
 
+        # Token files of jobs that have ended are removed as soon as they are
+        # read: a removal that happened before the watcher was registered has
+        # not been notified, so read the state again
+        with self.lock, self.ipc_lock:
+            self._update()
+
     def _update(self):
         """Update the state by reading all the information from disk
 
